@@ -1347,7 +1347,7 @@ func runC12(r *Run, rng *Rng, replay string) {
 		}
 		sb := c12SPrepare(bk)
 		sscript := c12SScript(rng, sb, bi)
-		shscript := c12SheetScript(rng, len(bk.sheets), bi)
+		shscript := c12SheetScript(rng, len(bk.sheets), bi, thorough && strings.HasPrefix(id, "gen:") && bi%60 == 7 && len(bk.sheets) > 1)
 		ref := c12MakeRef(bk, hist, script, sb, sscript, shscript)
 		n := nLim
 		if strings.HasPrefix(id, "fix:Book1") && !thorough {
